@@ -49,7 +49,9 @@ func writeTables(c *vh.Ctx) {
 
 // ---------------------------------------------------------------- pools of boundary values
 
-func ut(y int, m time.Month, d, h, mi, s int) int64 { return time.Date(y, m, d, h, mi, s, 0, time.UTC).Unix() }
+func ut(y int, m time.Month, d, h, mi, s int) int64 {
+	return time.Date(y, m, d, h, mi, s, 0, time.UTC).Unix()
+}
 
 var timePool = []int64{
 	ut(1950, 1, 1, 0, 0, 0), ut(1949, 12, 31, 23, 59, 59), ut(2049, 12, 31, 23, 59, 59), ut(2050, 1, 1, 0, 0, 0),
@@ -84,9 +86,9 @@ var v4 = "0a010203"
 var v4in6 = "00000000000000000000ffff0a010203"
 var v6 = "20010db8000000000000000000000001"
 
-func pickStr(c *vh.Ctx) string  { return strPool[c.Intn(len(strPool))] }
-func pickOID(c *vh.Ctx) []int   { return oidPool[c.Intn(len(oidPool))] }
-func pickTime(c *vh.Ctx) int64  { return timePool[c.Intn(len(timePool))] }
+func pickStr(c *vh.Ctx) string { return strPool[c.Intn(len(strPool))] }
+func pickOID(c *vh.Ctx) []int  { return oidPool[c.Intn(len(oidPool))] }
+func pickTime(c *vh.Ctx) int64 { return timePool[c.Intn(len(timePool))] }
 func someStrs(c *vh.Ctx, max int) []string {
 	n := c.Intn(max + 1)
 	var o []string
@@ -328,7 +330,7 @@ func gen(c *vh.Ctx) {
 		i := in(t)
 		// the implementation is evaluated on all 511 values; the model re-derives a sample of them in the quick
 		// tier (the model's own round trip over all 511 values is a theorem)
-		i.OracleOnly = !c.Thorough && ku%8 != 0 && ku != 1 && ku != 511 && ku&(ku-1) != 0
+		i.OracleOnly = !c.Thorough && ku%16 != 0 && ku != 1 && ku != 511 && ku&(ku-1) != 0
 		run(i)
 	}
 	c.Exhaustive("key usage: all 511 non-zero values of the nine defined bits (direct oracle; model correspondence on all of them in the thorough tier)")
@@ -525,7 +527,11 @@ func gen(c *vh.Ctx) {
 		t.Perm.DNS, t.Excl.Emails = []string{s}, []string{s}
 		run(in(t))
 	}
-	for i := 0; i < 30; i++ {
+	nn := 15
+	if c.Thorough {
+		nn = 200
+	}
+	for i := 0; i < nn; i++ {
 		t := baseTmpl(c)
 		t.Subject = randName(c)
 		run(in(t))
@@ -594,6 +600,9 @@ func gen(c *vh.Ctx) {
 				if !i.InDomain {
 					i.Why = "algorithm-key-mismatch"
 				}
+				if issued && !i.InDomain && !c.Thorough {
+					continue // the refusal does not depend on the parent: one copy of each refused pair in the quick tier
+				}
 				if issued {
 					i.Parent = caTmpl(alg)
 					i.SubjKey = []int{kRSA1, kP256, kEd1, kP384, kP224, kP521, kRSA1024}[(alg+sk)%7]
@@ -605,7 +614,7 @@ func gen(c *vh.Ctx) {
 	c.Exhaustive("signer key in {RSA-2048, RSA-1024, P-224, P-256, P-384, P-521, Ed25519} x requested SignatureAlgorithm in {0..17, 99} x {self-signed, issued}")
 
 	// 11. random templates over the whole field domain
-	n := 120
+	n := 90
 	if c.Thorough {
 		n = 6000
 	}
